@@ -173,10 +173,13 @@ pub fn run(ctx: &Ctx) -> Report {
     for s in scenarios(ctx.quick()) {
         // quick: the schedule search goes one deviation deep for the kinds a copy could write through or into
         // (file, dangling link, directory); FIFO and link-to-file collisions run under the two base schedules
-        let deep = true; // every collision kind under every schedule with <= d deviations (affordable since the scratch moved to RAM)
+        // every collision kind under every schedule with <= 1 deviation; thorough goes to 2 deviations for two
+        // workers, forward argument order and the kinds a copy could write through or into (file, dangling link,
+        // directory): d <= 2 on all 300 scenarios is several million executions
+        let two = !ctx.quick() && s.name.ends_with("-w2") && s.name.contains("-fwd-") && (s.name.contains("noclobber-file-at") || s.name.contains("noclobber-dangling-link-at") || s.name.contains("noclobber-dir-at"));
         let s = Arc::new(s);
         for b in base_specs() {
-            jobs.push((s.clone(), b, if deep { d } else { 0 }));
+            jobs.push((s.clone(), b, if two { d } else { 1 }));
         }
     }
     let n = jobs.len() / 2;
